@@ -53,6 +53,16 @@ def hand_programs():
     # a class with parameters
     out.append(('class-template', {'rules': [('start', ('seq', [('call', 0, [(None, L('a')), (None, ('py', 101, []))]), ('call', 0, [('xa', ('py', 102, [])), ('pa', CC)])]))],
                                    'templates': [('T0', ['pa', 'xa'], ('bseq', 'T0', ['ya', 'yb'], [('ya', ('pvar', 'pa')), ('yb', ('py', 1, ['xa', 'ya'])), (None, ('opt', ('pvar', 'pa')))]))]}))
+    # two instantiations at the same position that differ in exactly one argument (every index, positional and keyword)
+    four = ('T0', ['pa', 'pb', 'pc', 'xa'], ('seq', [('pvar', 'pa'), ('pvar', 'pb'), ('pvar', 'pc'), V('xa')]))
+    base = [L('a'), L('a'), L('a'), ('py', 101, [])]
+    for i in range(4):
+        other = list(base)
+        other[i] = L('ab') if i < 3 else ('py', 102, [])
+        for kwform in (False, True):
+            mk = (lambda args: [(q, a) for q, a in zip(four[1], args)][::-1]) if kwform else (lambda args: [(None, a) for a in args])
+            out.append((f'one-argument-differs-{i}{"k" if kwform else ""}', {'rules': [('start', ('choice', [
+                ('seq', [('call', 0, mk(base)), L('!')]), ('call', 0, mk(other))]))], 'templates': [four]}))
     # == but not interchangeable argument values (known finding: shared memo entry)
     out.append(('equal-values', {'rules': [('start', ('seq', [('call', 0, [(None, ('py', 101, []))]), ('call', 0, [(None, ('py', 11, []))])]))],
                                  'templates': [('T0', ['xa'], V('xa'))]}))
@@ -61,7 +71,7 @@ def hand_programs():
 
 def build_jobs(tier, seed):
     rng = random.Random(seed)
-    inputs = envgen.inputs_for(rng, 12) + ['aa', 'bb', 'abab', 'ab', 'aaaa', 'acab', 'aab', 'abc', 'cab', 'ccc', 'aaa', 'ac', 'ca', 'abca']
+    inputs = envgen.inputs_for(rng, 12) + ['aaa', 'abaa', 'aaba', 'aaab', 'aaa!', 'abaa!', 'aa', 'bb', 'abab', 'ab', 'aaaa', 'acab', 'aab', 'abc', 'cab', 'ccc', 'aaa', 'ac', 'ca', 'abca']
     jobs = []
     for named in (None, 'envk'):
         for fam, P in hand_programs():
